@@ -346,10 +346,10 @@ def sliceEntriesOf (comps : List Comp) : List (Option SliceEntry) :=
 
 /-- `Converter._translate_subscript_expr`. -/
 def planGraph (comps : List Comp) : Except Err Plan :=
-  -- `A[:]`, `A[:, :]`: the code calls `_emit1([target], "Identity", [var_name])` with the *name*
-  -- (a `str`) where a value is required; decoration fails with AttributeError — a refusal.
+  -- `A[:]`, `A[:, :]`: edge case, no index specified: one Identity node.  (Before /repo commit 35a0ff1
+  -- the code passed the *name* (a `str`) to `_emit1` and decoration died with AttributeError.)
   if (slicedOf comps).isEmpty && (scalarsOf comps).isEmpty && (nonScalarsOf comps).isEmpty then
-    .error .refused
+    .ok [.identity]
   else if useSlice comps then
     if (sliceEntriesOf comps).any Option.isNone then .error .refused
     else
